@@ -596,6 +596,8 @@ def check_reexports(world: Dict[str, Any], system: Any) -> List[Viol]:
             continue
         want = expected_fullname(world, i)
         got = objs[0].fullName()
+        if top in truth.get('loc_unsure', ()):
+            continue      # cyclic world: a back edge made the name travel through earlier star imports (see world.py)
         if moved and not truth.get('reexport_direct', {}).get(str(top), True):
             # re-exported through a chain of imports or an alias: outside the quantifier of C07
             # (and pydoctor does not promise to follow chains); either location is accepted
@@ -634,6 +636,8 @@ def check_references(world: Dict[str, Any], system: Any) -> List[Viol]:
             i = b[1]
             d = defs[str(i)]
             if d['outer'] is not None or not truth['reexporters'].get(str(i)):
+                continue
+            if i in truth.get('loc_unsure', ()):
                 continue
             if not truth.get('reexport_direct', {}).get(str(i), True):
                 continue
@@ -697,6 +701,8 @@ def check_references(world: Dict[str, Any], system: Any) -> List[Viol]:
                 i = ref.get('id')
                 if i is None or defs[str(i)]['outer'] is not None or not truth['reexporters'].get(str(i)):
                     continue
+                if i in truth.get('loc_unsure', ()):
+                    continue
                 if not truth.get('reexport_direct', {}).get(str(i), True):
                     continue
                 if ref.get('route') not in ('from', 'from-as', 'local'):
@@ -756,6 +762,8 @@ def _check_links(world: Dict[str, Any], system: Any, bym: Dict[int, List[Any]]) 
             i = b[1]
             d = defs[str(i)]
             if d['outer'] is not None or not truth['reexporters'].get(str(i)) or d['kind'] not in ('class', 'func'):
+                continue
+            if i in truth.get('loc_unsure', ()):
                 continue
             if not truth.get('reexport_direct', {}).get(str(i), True):
                 continue
